@@ -20,7 +20,9 @@ for l in open(os.path.join(here, '..', 'properties.jsonl')):
     prop = "PROPERTY %s — %s\n\n%s\n\nQuantifier: %s\n\nAnchored in: %s\n" % (
         p['id'], p['title'], p['statement'], p['quantifier']['text'], ', '.join(p['anchors']['files']))
     f = focus.get(p['id'], '')
-    if f:
+    if f.startswith('!'):
+        f = "\n" + f[1:] + "\n\n"
+    elif f:
         f = "\nWhere to look: another change against this property has already been made elsewhere; make yours in or around %s.\n\n" % f
     open('%s/prompt_%s.txt' % (base, cid), 'w').write(
         tmpl.replace('__DIR__', d).replace('__PROP__', prop).replace('__ID__', p['id']).replace('__FOCUS__', f))
